@@ -164,6 +164,9 @@ func runOne(pd *propDef, p *Prog, loadErr error, loadDur time.Duration, tier, ve
 			return
 		}
 		rep.P = p
+		if len(p.Forwarders) > 0 {
+			rep.Note("loader collapsed %d pure forwarder(s) onto the body they were outlined into: %s", len(p.Forwarders), strings.Join(p.Forwarders, "; "))
+		}
 		pd.run(rep)
 	}()
 
